@@ -189,6 +189,9 @@ exec(open(os.path.join(os.path.dirname(os.path.abspath(__file__)), 'c13_decision
 # ------------------------------------------------------------------ native replay
 for v in ck.violations:
     w = v['witness']
+    if str(w.get('wal', '')).endswith('-double'):
+        v['native'], v['replayed'] = double_crash_replay(w)
+        continue
     if w.get('wal') == 'tx':
         rep = Replay.call({'op': 'wal_torn', 'wal': 'tx', 'k': w['k'], 'cut_offset': w['cut_offset'], 'frame_len': w['frame_len']})
         v['native'] = rep
